@@ -560,11 +560,15 @@ def interrupted_calls(concepts, ctx, lat, rng, steps=3, first_access=False):
     COL.counters['interrupted_call_attempts'] += steps
 
 
+_LAST_CTX = [None]
+
+
 def get_lattice(ctx):
     """``ctx.lattice`` (tied to ``ctx``) or RAISED.  For one context in three the first access comes
     after a few calls that fail (see ``failing_calls``)."""
+    import random
+    key = 0
     if 'lattice' not in vars(ctx):
-        import random
         import sys
         import zlib
         try:
@@ -579,13 +583,103 @@ def get_lattice(ctx):
             editing_calls(ctx, None, random.Random(key), 5)
             COL.counters['first_lattice_access_after_edits_of_returned_containers'] += 1
         elif key % 4 == 2 and len(ctx.objects) * len(ctx.properties) <= 400:
-            interrupted_calls(lib, ctx, None, random.Random(key), 3, first_access=True)
-            interrupted_calls(lib, ctx, None, random.Random(key + 1), 2)
+            rng_ = random.Random(key)
+            # aborted builds that get far: the length of a complete build is measured on a copy first
+            total = None
+            if key % 8 == 2:
+                try:
+                    with core.monitor_code():
+                        twin = ctx.copy()
+                    total = faults.count_lines(lambda: list(lib.lattices.Lattice(twin)))
+                except (core.CaseTimeout, core.CaseTooLarge):
+                    raise
+                except Exception:
+                    total = None
+            if total:
+                for frac in rng_.sample([.3, .5, .7, .8, .9, .95, .98, .995], 3):
+                    n_ = max(1, int(total * frac) - rng_.randrange(3))
+                    try:
+                        faults.interrupted(lambda: ctx.lattice, n_, rng_.choice([RecursionError, KeyboardInterrupt, MemoryError]))
+                    except (core.CaseTimeout, core.CaseTooLarge):
+                        raise
+                    except BaseException:
+                        COL.counters['interrupted_calls_ended_otherwise'] += 1
+                COL.counters['first_lattice_builds_aborted_late'] += 1
+            else:
+                interrupted_calls(lib, ctx, None, rng_, 3, first_access=True)
             COL.counters['first_lattice_access_after_interrupted_attempts'] += 1
-    lat = call(lambda: ctx.lattice)
+            # the next lattice that is built belongs to ANOTHER context (the one of an earlier case, of
+            # another size): what an aborted build left behind must not leak into it either
+            prev = _LAST_CTX[0]() if _LAST_CTX[0] is not None else None
+            if prev is not None and prev is not ctx and 'lattice' not in vars(ctx):
+                try:
+                    l2 = lib.lattices.Lattice(prev)
+                    tie(l2, prev)
+                    list(l2), l2.infimum.upper_neighbors, l2.supremum.lower_neighbors
+                    KEEP.append(l2)
+                    COL.counters['another_contexts_lattice_built_right_after_aborted_builds'] += 1
+                except (core.CaseTimeout, core.CaseTooLarge):
+                    raise
+                except Exception:
+                    COL.counters['interference_calls_raised'] += 1
+            interrupted_calls(lib, ctx, None, random.Random(key + 1), 2)
+        if len(ctx.objects) <= 40 and len(ctx.properties) <= 40:
+            _LAST_CTX[0] = weakref.ref(ctx)
+    fresh = 'lattice' not in vars(ctx)
+    cut = fresh and key % 4 == 3 and len(ctx.objects) <= 16 and len(ctx.properties) <= 16
+    DEFER[0] = bool(cut)
+    try:
+        lat = call(lambda: ctx.lattice)
+    finally:
+        DEFER[0] = False
     if lat is not RAISED:
         tie(lat, ctx)
+        if cut:
+            first_reads_cut_short(ctx, lat, random.Random(key))
     return lat
+
+
+DEFER = [False]
+
+
+def first_reads_cut_short(ctx, lat, rng, times=6):
+    """Nobody has read anything from this lattice yet (the construction hooks stood back): its first
+    reads - labels, atoms, comparisons, traversals, generating sets, joins, the drawing - are cut short
+    by an injected exception or made with hardly any stack left.  Not judged; every later read is."""
+    try:
+        members = list(lat)
+    except Exception:
+        return
+    if not members or len(members) > 300:
+        return
+    props = list(ctx.properties)
+    for _ in range(times):
+        a, b, c = (rng.choice(members) for _ in range(3))
+        thunks = [lambda: (a <= b, b < a), lambda: (a >= c, a > b), lambda: a.orthogonal_to(b),
+                  lambda: (c.objects, c.properties), lambda: members[0].objects, lambda: c.atoms, lambda: str(c),
+                  lambda: next(c.upset(), None), lambda: list(c.downset()), lambda: next(lat.upset_union([a, b]), None),
+                  lambda: next(c.attributes(), None) if len(c.intent) <= 10 else None, lambda: c.minimal(),
+                  lambda: (a | b, a & b), lambda: lat.join([a, b, c]), lambda: lat(rng.sample(props, min(2, len(props)))),
+                  lambda: lat.graphviz(), lambda: (lat.atoms, lat.infimum, lat.supremum), lambda: lat.todict() if hasattr(lat, 'todict') else None]
+        fn = rng.choice(thunks)
+        try:
+            if rng.random() < .5:
+                faults.interrupted(fn, rng.choice([1, 2, 3, 4, 6, 9, 13, 20, 30, 45, 70]),
+                                   rng.choice([RecursionError, RecursionError, MemoryError, KeyboardInterrupt]))
+            else:
+                faults.low_stack(fn, rng.randint(1, 40))
+            if rng.random() < .3:       # a traversal that was only started, then asked again with little stack
+                it = c.upset() if rng.random() < .5 else c.downset()
+                next(it, None)
+                faults.low_stack(lambda: list(c.upset()), rng.randint(1, 6))
+                faults.low_stack(lambda: list(c.downset()), rng.randint(1, 6))
+        except (core.CaseTimeout, core.CaseTooLarge):
+            raise
+        except BaseException as e:
+            if isinstance(e, (SystemExit, GeneratorExit)):
+                raise
+            COL.counters['interrupted_calls_ended_otherwise'] += 1
+    COL.counters['first_reads_of_a_fresh_lattice_cut_short'] += times
 
 
 def table_stats(sh):
